@@ -1114,67 +1114,39 @@ theorem channelCentres_getElem? (chans : List (Chan α)) (centre : Nat → List 
     (channelCentres chans centre W k)[c]? = (W[c]?).map (fun w => centre k (slice (wlens chans) k w)) := by
   simp [channelCentres]
 
-/-- one target channel: the result is that channel's centre of the category predicted with
-the target channel skipped -/
-theorem predictRegression_single (chans : List (Chan α)) (centre : Nat → List α → List α) (t : Int)
-    (W : List (List α)) (x : List α) (ht : 0 ≤ normIdx chans.length t) (c : Nat)
-    (hc : stepPredSkip chans (skipSet chans.length [t]) W x = some c) :
-    predictRegression chans centre [t] W x =
-      (W[c]?).map (fun w => [centre (normIdx chans.length t).toNat
-        (slice (wlens chans) (normIdx chans.length t).toNat w)]) := by
-  have hs := skipSet_normIdx chans.length [t] (by simpa using ht)
-  simp only [List.map_cons, List.map_nil] at hs
-  unfold predictRegression
-  simp only [List.map_cons, List.map_nil, hs, hc, List.length_singleton, if_true,
-    List.getElem?_cons_zero, Option.bind_some, channelCentres_getElem?]
-  cases W[c]? <;> rfl
-
-/-- several targets, as written: the entry for target `k` is read from position `k` of the
-list of centres, i.e. it is the centre of channel `tn[k]` -/
-theorem predictRegression_multi (chans : List (Chan α)) (centre : Nat → List α → List α)
-    (targets : List Int) (W : List (List α)) (x : List α) (hl : targets.length ≠ 1)
+/-- **Regression**: for any list of target channels the result is, target by target in the
+order given, that channel's centre of the category predicted with the targets skipped. -/
+theorem predictRegression_eq (chans : List (Chan α)) (centre : Nat → List α → List α)
+    (targets : List Int) (W : List (List α)) (x : List α)
     (hnn : ∀ t ∈ targets, 0 ≤ normIdx chans.length t) (c : Nat)
     (hc : stepPredSkip chans (skipSet chans.length targets) W x = some c) :
-    predictRegression chans centre targets W x =
-      allSome ((targets.map (normIdx chans.length)).map (fun k =>
-        (((targets.map (normIdx chans.length))[k.toNat]?).bind (fun k' =>
-          (W[c]?).map (fun w => centre k'.toNat (slice (wlens chans) k'.toNat w)))))) := by
+    ∃ w, W[c]? = some w ∧
+      predictRegression chans centre targets W x =
+        some ((targets.map (normIdx chans.length)).map
+          (fun k => centre k.toNat (slice (wlens chans) k.toNat w))) := by
   have hs := skipSet_normIdx chans.length targets hnn
-  unfold predictRegression
-  simp only [hs, hc, List.length_map, hl, if_false]
-  congr 1
-  apply List.map_congr_left
-  intro k _
-  rw [List.getElem?_map]
-  cases (targets.map (normIdx chans.length))[k.toNat]? with
-  | none => rfl
-  | some k' => simp [channelCentres_getElem?]
-
-/-- … which is the right centre exactly when every target sits at its own position -/
-theorem predictRegression_multi_pos (chans : List (Chan α)) (centre : Nat → List α → List α)
-    (targets : List Int) (W : List (List α)) (x : List α) (hl : targets.length ≠ 1)
-    (hnn : ∀ t ∈ targets, 0 ≤ normIdx chans.length t)
-    (hpos : ∀ k ∈ targets.map (normIdx chans.length),
-      (targets.map (normIdx chans.length))[k.toNat]? = some k)
-    (c : Nat) (hc : stepPredSkip chans (skipSet chans.length targets) W x = some c) :
-    predictRegression chans centre targets W x =
-      (W[c]?).map (fun w => (targets.map (normIdx chans.length)).map
-        (fun k => centre k.toNat (slice (wlens chans) k.toNat w))) := by
-  rw [predictRegression_multi chans centre targets W x hl hnn c hc]
   have hlt : c < W.length := by
     have := argmaxNp_lt_length hc
     simpa using this
-  rw [List.getElem?_eq_getElem hlt]
-  generalize targets.map (normIdx chans.length) = tn at hpos ⊢
-  have : tn.map (fun k => ((tn[k.toNat]?).bind (fun k' =>
-        (some W[c]).map (fun w => centre k'.toNat (slice (wlens chans) k'.toNat w))))) =
-      (tn.map (fun k => centre k.toNat (slice (wlens chans) k.toNat W[c]))).map some := by
-    rw [List.map_map]
-    apply List.map_congr_left
-    intro k hk
-    simp [hpos k hk]
-  rw [this, allSome_map_some]
-  rfl
+  refine ⟨W[c], List.getElem?_eq_getElem hlt, ?_⟩
+  unfold predictRegression
+  simp only [hs, hc, List.length_map]
+  generalize targets.map (normIdx chans.length) = tn
+  have hcen : ∀ k : Int, (channelCentres chans centre W k.toNat)[c]? =
+      some (centre k.toNat (slice (wlens chans) k.toNat W[c])) := by
+    intro k
+    rw [channelCentres_getElem?, List.getElem?_eq_getElem hlt]; rfl
+  split
+  · rename_i h1
+    match tn, h1 with
+    | [k], _ => simp [hcen]
+  · have : (tn.map (fun k => channelCentres chans centre W k.toNat)).map (·[c]?) =
+        (tn.map (fun k => centre k.toNat (slice (wlens chans) k.toNat W[c]))).map some := by
+      rw [List.map_map, List.map_map]
+      apply List.map_congr_left
+      intro k _
+      simp [hcen]
+    rw [this, allSome_map_some]
 
 end Regr2
 
@@ -1265,100 +1237,81 @@ theorem slice_maskFrom (filler : β) (skip : Nat → Bool) (k : Nat) (ws : List 
 
 end JoinSplit
 
-/-! ### prepare / restore with a suffix of skipped channels -/
+/-! ### prepare / restore for any set of skipped channels -/
 section PrepRestore
 variable {β : Type}
 
-theorem keptWidths_suffix (skip : Nat → Bool) (m k : Nat) (ws : List Nat)
-    (h : ∀ j, j < ws.length → skip (k + j) = decide (m ≤ k + j)) :
-    keptWidths skip k ws = ws.take (m - k) := by
+theorem keptWidths_eq (skip : Nat → Bool) (k : Nat) (ws : List Nat) :
+    keptWidths skip k ws =
+      ((List.range ws.length).filter (fun j => !skip (k + j))).map (fun j => ws.getD j 0) := by
   induction ws generalizing k with
   | nil => simp [keptWidths]
   | cons w ws ih =>
-    have h0 := h 0 (by simp)
-    have ih' := ih (k + 1) (fun j hj => by
-      have := h (j + 1) (by simpa using hj)
-      rw [show k + 1 + j = k + (j + 1) by omega]; exact this)
-    simp only [Nat.add_zero] at h0
-    by_cases hmk : m ≤ k
-    · simp only [keptWidths, h0, hmk, decide_true, if_true, ih']
-      rw [show m - (k + 1) = 0 by omega, show m - k = 0 by omega]; simp
-    · simp only [keptWidths, h0, hmk, decide_false, Bool.false_eq_true, if_false, ih']
-      rw [show m - k = (m - (k + 1)) + 1 by omega]; simp
+    have ih' := ih (k + 1)
+    have hshift : ((List.range ws.length).map Nat.succ).filter (fun j => !skip (k + j)) =
+        ((List.range ws.length).filter (fun j => !skip (k + 1 + j))).map Nat.succ := by
+      rw [List.filter_map]
+      congr 1
+      apply List.filter_congr
+      intro j _
+      simp only [Function.comp]
+      rw [show k + Nat.succ j = k + 1 + j by omega]
+    simp only [keptWidths, List.length_cons, List.range_succ_eq_map, List.filter_cons, Nat.add_zero, ih',
+      hshift, List.map_map]
+    cases skip k <;> simp [Function.comp]
 
-theorem filter_lt_range (n m : Nat) : (List.range n).filter (fun i => decide (i < m)) = List.range (min n m) := by
-  induction n with
-  | zero => simp
-  | succ n ih =>
-    rw [List.range_succ, List.filter_append, ih]
-    by_cases h : n < m
-    · simp [h, Nat.min_eq_left (Nat.le_of_lt h), Nat.min_eq_left (Nat.succ_le_of_lt h), List.range_succ]
-    · have h' : m ≤ n := Nat.le_of_not_lt h
-      simp [h, Nat.min_eq_right h', Nat.min_eq_right (Nat.le_succ_of_le h')]
+theorem zipIdx_map_lookup {γ δ : Type} (l : List Nat) (g : Nat → γ) (f : Nat → γ → δ) :
+    l.zipIdx.map (fun ip => ((l.map g)[ip.2]?).map (f ip.1)) = (l.map (fun i => f i (g i))).map some := by
+  apply List.ext_getElem?
+  intro k
+  rw [zipIdx_map_getElem?, List.getElem?_map, List.getElem?_map, List.getElem?_map]
+  cases l[k]? <;> simp
 
-theorem kept_suffix (skip : Nat → Bool) (m n : Nat) (hm : m ≤ n)
-    (h : ∀ i, i < n → skip i = decide (m ≤ i)) : kept n skip = List.range m := by
-  unfold kept
-  have : (List.range n).filter (fun i => !skip i) = (List.range n).filter (fun i => decide (i < m)) := by
-    apply List.filter_congr
-    intro i hi
-    rw [h i (by simpa using hi)]
-    by_cases hh : m ≤ i
-    · simp [hh]
-    · simp [hh]; omega
-  rw [this, filter_lt_range, Nat.min_eq_right hm]
-
-/-- **prepare / restore round trip when the skipped channels are the last ones.**
-`data` has one entry per channel; the first `m` channels are kept.  If every module's
-`restore_data` inverts its `prepare_data` (C18) and prepared rows have the channel width,
-`restore_data(prepare_data(data, skip), skip)` returns the supplied channels. -/
-theorem restore_prepare_suffix (prep rest : Nat → List β → List β) (ws : List Nat) (skip : Nat → Bool)
-    (filler : β) (data : List (List β)) (m : Nat) (hm : m ≤ ws.length) (hd : data.length = ws.length)
-    (hskip : ∀ i, i < ws.length → skip i = decide (m ≤ i))
-    (hwid : ∀ i, i < m → (prep i (data.getD i [])).length = ws.getD i 0)
-    (hinv : ∀ i, i < m → rest i (prep i (data.getD i [])) = data.getD i []) :
+/-- **prepare / restore round trip for any set of skipped channels.**  `data` has one entry per
+channel.  If every kept module's `restore_data` inverts its `prepare_data` (C18) and prepared
+rows have the channel width, `restore_data(prepare_data(data, skip), skip)` returns the supplied
+channels, in order. -/
+theorem restore_prepare_any (prep rest : Nat → List β → List β) (ws : List Nat) (skip : Nat → Bool)
+    (filler : β) (data : List (List β)) (hd : data.length = ws.length)
+    (hwid : ∀ i, i < ws.length → skip i = false → (prep i (data.getD i [])).length = ws.getD i 0)
+    (hinv : ∀ i, i < ws.length → skip i = false → rest i (prep i (data.getD i [])) = data.getD i []) :
     ∃ v, prepareRow prep ws skip filler data = some v ∧
-      restoreRow rest ws skip v = some ((List.range m).map (fun i => data.getD i [])) := by
-  have hk := kept_suffix skip m ws.length hm hskip
-  have hkw : keptWidths skip 0 ws = ws.take m := by
-    have := keptWidths_suffix skip m 0 ws (fun j hj => by simpa using hskip j hj)
-    simpa using this
-  let P := (List.range m).map (fun i => prep i (data.getD i []))
-  have hP : (List.range m).map (fun i => (data[i]?).map (prep i)) = P.map some := by
+      restoreRow rest ws skip v = some ((kept ws.length skip).map (fun i => data.getD i [])) := by
+  have hmem : ∀ i ∈ kept ws.length skip, i < ws.length ∧ skip i = false := by
+    intro i hi
+    simp only [kept, List.mem_filter, List.mem_range, Bool.not_eq_eq_eq_not, Bool.not_true] at hi
+    exact hi
+  let P := (kept ws.length skip).map (fun i => prep i (data.getD i []))
+  have hP : (kept ws.length skip).map (fun i => (data[i]?).map (prep i)) = P.map some := by
     rw [List.map_map]
     apply List.map_congr_left
     intro i hi
-    have hi' : i < data.length := by have := List.mem_range.mp hi; omega
+    have hi' : i < data.length := by have := (hmem i hi).1; omega
     simp [List.getD_eq_getElem?_getD, List.getElem?_eq_getElem hi']
   have hfit : Fit (keptWidths skip 0 ws) P := by
-    rw [hkw]
-    apply fit_of_getD
-    · simp [P, Nat.min_eq_left hm]
-    · intro k hk'
-      have hkm : k < m := by simp at hk'; omega
-      have e1 : P.getD k [] = prep k (data.getD k []) := by
-        simp [P, List.getD_eq_getElem?_getD, List.getElem?_range hkm]
-      have e2 : (ws.take m).getD k 0 = ws.getD k 0 := by
-        simp [List.getD_eq_getElem?_getD, hkm]
-      rw [e1, e2]; exact hwid k hkm
+    rw [keptWidths_eq]
+    simp only [Nat.zero_add]
+    show List.Forall₂ _ (((List.range ws.length).filter (fun j => !skip j)).map _) (List.map _ (kept ws.length skip))
+    unfold kept
+    rw [List.forall₂_map_left_iff, List.forall₂_map_right_iff, List.forall₂_same]
+    intro i hi
+    have := hmem i hi
+    exact hwid i this.1 this.2
   obtain ⟨v, hj, hsp, _⟩ := split_join_from filler skip 0 ws P hfit
   refine ⟨v, ?_, ?_⟩
   · unfold prepareRow
-    rw [hk, hP, allSome_map_some]
+    rw [hP, allSome_map_some]
     exact hj
   · unfold restoreRow splitRow
-    rw [hk, hsp]
-    have : (List.range m).map (fun i => (P[i]?).map (rest i)) =
-        ((List.range m).map (fun i => data.getD i [])).map some := by
-      rw [List.map_map]
-      apply List.map_congr_left
-      intro i hi
-      have him := List.mem_range.mp hi
-      have := hinv i him
-      simp only [List.getD_eq_getElem?_getD] at this
-      simp [P, List.getElem?_range him, this]
-    show allSome ((List.range m).map (fun i => (P[i]?).map (rest i))) = _
-    rw [this, allSome_map_some]
+    rw [hsp]
+    show allSome ((kept ws.length skip).zipIdx.map (fun ip =>
+      (((kept ws.length skip).map (fun i => prep i (data.getD i [])))[ip.2]?).map (rest ip.1))) = _
+    rw [zipIdx_map_lookup, allSome_map_some]
+    congr 1
+    apply List.map_congr_left
+    intro i hi
+    have := hmem i hi
+    exact hinv i this.1 this.2
 
 end PrepRestore
 
